@@ -41,6 +41,36 @@ def h_init_cdb(ctx):
         ctx.check("only groups 3, 6, 7 and out-of-range codes are refused", ctx.oracle(~fixed if not isinstance(fixed, bool) else not fixed))
 
 
+def h_command_sequence(ctx):
+    """two steps: the CDB a command object gets follows the opcode *it* was constructed with, also when the same
+    command class was constructed with another opcode before; and an OpCode built after another one (both with
+    short-lived inline service-action tables) lists its own service actions"""
+    from pyscsi.pyscsi.scsi_command import SCSICommand
+    from pyscsi.pyscsi.scsi_opcode import OpCode
+
+    class Cmd(SCSICommand):
+        pass
+    for tag, v in (("first", ctx.int("v1", 8)), ("second", ctx.int("v2", 8))):
+        st, r = ctx.attempt(Cmd, OpCode("X", v, {}), 0, 0)
+        g = v >> 5
+        fixed = (g == 0) | (g == 1) | (g == 2) | (g == 4) | (g == 5)
+        if st == "ok":
+            n = len(r.cdb)
+            want = (g == 0) & (n == 6) | ((g == 1) | (g == 2)) & (n == 10) | (g == 4) & (n == 16) | (g == 5) & (n == 12)
+            ctx.check(tag + " construction: CDB length follows the group of this opcode", ctx.oracle(want))
+        else:
+            ctx.check(tag + " construction: only codes without a fixed length are refused",
+                      ctx.oracle(~fixed if not isinstance(fixed, bool) else not fixed))
+    s1, s2 = ctx.int("s1", 5), ctx.int("s2", 5)
+    a = OpCode("A", 0xA3, {"SA_ONE": s1, "SA_TWO": s1 + 1})
+    b = OpCode("B", 0xA4, {"SB_ONE": s2})
+    ctx.check("second opcode lists exactly its own service action", sorted(b.serviceaction.keys) == ["SB_ONE"],
+              repr(sorted(b.serviceaction.keys)))
+    if "SB_ONE" in b.serviceaction.keys:
+        ctx.check("second opcode: service action value", b.serviceaction.SB_ONE == ctx.oracle(s2))
+    ctx.check("first opcode keeps its own service actions", sorted(a.serviceaction.keys) == ["SA_ONE", "SA_TWO"])
+
+
 def h_opcode_object(ctx):
     """init_cdb follows the *current* value of a real OpCode object (value is a public, settable property)"""
     from pyscsi.pyscsi.scsi_command import SCSICommand
@@ -189,7 +219,8 @@ def h_status(ctx):
 
 def obligations(tier):
     from symx.harness import Ob
-    obs = [Ob("init_cdb/symbolic-opcode", MOD, "h_init_cdb", {}), Ob("init_cdb/opcode-object-revalued", MOD, "h_opcode_object", {})]
+    obs = [Ob("init_cdb/symbolic-opcode", MOD, "h_init_cdb", {}), Ob("init_cdb/opcode-object-revalued", MOD, "h_opcode_object", {}),
+           Ob("init_cdb/command-class-constructed-twice", MOD, "h_command_sequence", {})]
     for s in SETNAMES:
         obs.append(Ob("exposed-names/%s" % s, MOD, "h_exposed_names", {"set_name": s}))
     for s in SETNAMES:
